@@ -263,8 +263,16 @@ func genText(c *RunCtx, prop string) []*Batch {
 			if err != nil || pan != nil {
 				continue
 			}
+			// the program as compiled, before anything is printed: printing must leave it as it is
+			progBefore := progCoq(eval.VerifExport(e))
 			d := eval.Dump(e)
-			b.Cases = append(b.Cases, Case{Term: fmt.Sprintf("TCDump %s %s", progCoq(eval.VerifExport(e)), coqStr(d)), Key: "dump" + src + fmt.Sprint(mask), Nontrivial: true,
+			_ = eval.DumpTable(e, false)
+			if d1 := eval.Dump(e); d1 != d || progCoq(eval.VerifExport(e)) != progBefore {
+				c.Direct = append(c.Direct, DirectViolation{What: "Dump changed the compiled program (the program exported before and after printing differs, or a second Dump of the same program prints another text)", Sig: "c13-dump-mutates",
+					Sample: map[string]interface{}{"source": src, "first_dump": d, "second_dump": d1}})
+				continue
+			}
+			b.Cases = append(b.Cases, Case{Term: fmt.Sprintf("TCDump %s %s", progBefore, coqStr(d)), Key: "dump" + src + fmt.Sprint(mask), Nontrivial: true,
 				Tags: []string{"kind:dump", fmt.Sprintf("subset:%d", mask)}, Sample: map[string]interface{}{"source": clip(src, 160), "dump": clip(d, 160)}})
 			if !strings.HasPrefix(d, "(") {
 				continue // folded to a bare scalar: outside the property
